@@ -25,6 +25,13 @@ TIME_POS = {'sleep': [1], 'after': [1], 'before': [1], 'moment': [1], 'delay': [
             'transfer': [2, 3], 'interval': [1], 'delayiter': [1], 'nestedrun': [1], 'pipes': 'all'}
 
 
+def tpair(x, kind='rat'):
+    if kind == 'float':
+        return [struct.unpack('<Q', struct.pack('<d', float(x)))[0], 0]
+    f = fractions.Fraction(x)
+    return [f.numerator, f.denominator]
+
+
 def model_line(scenario, kind='rat'):
     # spawn: ['spawn', scope, task, after, at, vol, ['prog', ...]] - after/at are times or None
     def fix(x):
@@ -102,6 +109,7 @@ class Interp:
         self.pending_awaits = {}
         self.scope_insts = 0
         self.scope_inst_of = {}
+        self.scope_tasks = {}
         self.started = set()
 
         class A(Exception):
@@ -203,6 +211,8 @@ class Interp:
         if h == 'instant':
             return type(instant)()
         if h == 'done':
+            if c[1] not in self.tasks:
+                raise NotImplementedError('unbound task name (scenario error)')
             return self.tasks[c[1]].done
         if h == 'all':
             return All(*[self.cond(x) for x in c[1:]])
@@ -243,9 +253,16 @@ class Interp:
         elif h == 'now':
             self.emit(label, 'now')
         elif h == 'sleep':
+            self.emit(label, 'abegin', [0] + tpair(s[1], self.kind))
             await (time + self.tv(s[1]))
+            self.emit(label, 'awaited', [1])
+        elif h == 'logcond':
+            c = self.cond(s[1])
+            self.emit(label, 'alg', [1 if c else 0, 1 if self.eval_spec(s[1]) else 0])
         elif h == 'await':
             c = self.cond(s[1])
+            k = {'after': 1, 'moment': 2, 'before': 3, 'eternity': 4, 'instant': 5}.get(s[1][0], 9)
+            self.emit(label, 'abegin', [k] + (tpair(s[1][1], self.kind) if k in (1, 2, 3) else [0, 1]))
             self.pending_awaits[label] = self.pending_awaits.get(label, []) + [c]
             try:
                 await c
@@ -253,6 +270,7 @@ class Interp:
                 self.pending_awaits[label].pop()
             self.emit(label, 'awaited', [1 if c else 0])
         elif h == 'set':
+            self.emit(label, 'setflag', [s[1], 1 if s[2] else 0])
             await self.flags[s[1]].set(bool(s[2]))
         elif h == 'scope':
             name, n, body = s[1], s[2], s[3:]
@@ -269,14 +287,15 @@ class Interp:
                     inst[0] = self.scope_insts
                     self.scope_insts += 1
                     self.scope_inst_of[id(scope)] = inst[0]
-                    self.emit(label, 'senter', [name, inst[0]])
+                    self.scope_tasks[inst[0]] = []
+                    self.emit(label, 'senter', [name, inst[0], 0 if n[0] == 'none' else 1])
                     await self.block(label, body)
             except BaseException:
                 if inst[0] is not None:
-                    self.emit(label, 'sexit', [name, inst[0], 1])
+                    self.emit(label, 'sexit', [name, inst[0], 1, self.not_done(inst[0])])
                 raise
             else:
-                self.emit(label, 'sexit', [name, inst[0], 0])
+                self.emit(label, 'sexit', [name, inst[0], 0, self.not_done(inst[0])])
         elif h == 'spawn':
             _, scn, tkn, after, at, vol, prog = s
             scope = self.scopes.get(scn)
@@ -296,7 +315,11 @@ class Interp:
             self.task_index[id(task)] = self.task_count
             self.task_count += 1
             self.tasks[tkn] = task
-            self.emit(label, 'spawn', [self.scope_inst_of.get(id(scope), -1), holder['label'], 1 if vol else 0])
+            si = self.scope_inst_of.get(id(scope), -1)
+            self.scope_tasks.setdefault(si, []).append(task)
+            when = ([1] + tpair(after, self.kind)) if (after is not None and self.tv(after) != 0) else \
+                (([2] + tpair(at, self.kind)) if (at is not None and self.tv(at) != self.loop().time) else [0, 0, 1])
+            self.emit(label, 'spawn', [si, holder['label'], 1 if vol else 0] + when)
             self.task_by_label[holder['label']] = task
             holder['task'] = task
         elif h == 'cancel':
@@ -304,6 +327,7 @@ class Interp:
             if t is None:
                 self.emit(label, 'unbound')
             else:
+                self.emit(label, 'cancel', [1000 + self.task_index[id(t)], t.status.value])
                 t.cancel(s[2])
         elif h == 'awaittask':
             t = self.tasks.get(s[1])
@@ -408,7 +432,7 @@ class Interp:
         elif h == 'addtracked':
             await (self.tracked[s[1]] + s[2])
         elif h in ('borrow', 'claim'):
-            self.emit(label, 'breq', [s[1]] + list(s[2]))
+            self.emit(label, 'breq', [s[1], 1 if h == 'claim' else 0] + list(s[2]))
             r = self.res.get(s[1])
             if r is None:
                 self.emit(label, 'unbound')
@@ -454,10 +478,12 @@ class Interp:
         elif h in ('interval', 'delayiter'):
             from usim import interval, delay
             n = 0
+            self.emit(label, 'tbegin', [1 if h == 'interval' else 0] + tpair(s[1], self.kind))
             if s[2] > 0:
                 async for _now in (interval if h == 'interval' else delay)(self.tv(s[1])):
                     self.emit(label, 'tick')
                     await self.block(label, s[3:])
+                    self.emit(label, 'tbodyend')
                     n += 1
                     if n >= s[2]:
                         break
@@ -504,6 +530,20 @@ class Interp:
                 c.close()
             _ = base
 
+    def not_done(self, inst):
+        return sum(1 for t in self.scope_tasks.get(inst, []) if not t.done)
+
+    def eval_spec(self, c):
+        """boolean-algebra reading: atoms by their own truth, &,|,~ as and/or/not"""
+        h = c[0]
+        if h == 'all':
+            return all(self.eval_spec(x) for x in c[1:])
+        if h == 'any':
+            return any(self.eval_spec(x) for x in c[1:])
+        if h == 'inv':
+            return not self.eval_spec(c[1])
+        return bool(self.cond(c))
+
     def order_of(self, label):
         # the model lists activities in creation order: roots, then tasks by id, nested roots
         return label
@@ -516,11 +556,24 @@ class Interp:
     async def task_body(self, holder, prog):
         # (the label is known once Scope.do returned; the payload only starts later)
         self.started.add(holder.get('label'))
+        from usim import CancelTask
         try:
             try:
                 await self.block_l(holder, prog)
             except _Ret as r:
+                self.emit(holder['label'], 'tfin', [0])
                 return r.args[0]
+            except CancelTask:
+                self.emit(holder['label'], 'tfin', [1])
+                raise
+            except GeneratorExit:
+                self.emit(holder['label'], 'tfin', [2])
+                raise
+            except BaseException as e:   # noqa
+                self.emit(holder['label'], 'tfin', [3] + self.exn_code(e, True))
+                raise
+            else:
+                self.emit(holder['label'], 'tfin', [0])
         finally:
             if 'label' in holder:
                 self.finished.add(holder['label'])
